@@ -21,7 +21,7 @@ import numpy as np
 from . import common
 
 PID = "C20"
-MYV = ["Ops/Seismic.v", "Corr/CheckC20.v"]
+MYV = ["Ops/Seismic.v", "Corr/CheckC20.v", "Ops/Fredholm.v", "Ops/MDCOp.v", "Corr/CheckC20b.v"]
 TOL = 1e-9
 
 # proposed entries for known_findings.json (genuine defects of the unchanged tree, see report)
@@ -106,7 +106,42 @@ def mdc_kernel(a):
 def build_mdc(a):
     MDC = _imports()[3]
     return MDC(mdc_kernel(a), a["nt"], a["nv"], dt=a["dt"], dr=a["dr"], twosided=a["twosided"],
-               saveGt=a["saveGt"], usematmul=a["usematmul"])
+               saveGt=a["saveGt"], usematmul=a["usematmul"], conj=bool(a.get("conj", False)),
+               prescaled=bool(a.get("prescaled", False)))
+
+
+def build_fred(a):
+    from pylops.signalprocessing import Fredholm1
+    return Fredholm1(mdc_kernel(a), a["nz"], saveGt=a["saveGt"], usematmul=a["usematmul"], dtype="complex128")
+
+
+def run_fred(a):
+    """Fredholm1 dense matrices (forward / adjoint columns) vs numpy einsum reference"""
+    rec = {"fam": "fred", "args": a}
+    G = mdc_kernel(a)
+    nsl, nx, ny = G.shape
+    nz = a["nz"]
+    try:
+        op = build_fred(a)
+        M = np.array([np.asarray(op.matvec(e.astype(complex))).ravel() for e in np.eye(nsl * ny * nz)])
+        A = np.array([np.asarray(op.rmatvec(e.astype(complex))).ravel() for e in np.eye(nsl * nx * nz)])
+    except Exception as ex:
+        rec["fail"] = {"kind": "raised", "error": "%s: %s" % (type(ex).__name__, str(ex)[:120])}
+        return rec
+    Mr = np.array([np.einsum("kij,kjz->kiz", G, e.reshape(nsl, ny, nz)).ravel() for e in np.eye(nsl * ny * nz)])
+    Ar = np.array([np.einsum("kij,kiz->kjz", G.conj(), e.reshape(nsl, nx, nz)).ravel() for e in np.eye(nsl * nx * nz)])
+    rec.update(M=M, A=A)
+    for direction, P, Q in (("forward", M, Mr), ("adjoint", A, Ar)):
+        if P.shape != Q.shape:
+            rec["fail"] = {"kind": "shape mismatch", "shapes": [list(P.shape), list(Q.shape)]}
+            break
+        dd = np.abs(P - Q) > TOL * (1 + np.abs(Q))
+        if dd.any():
+            j, i = (int(t) for t in np.argwhere(dd)[0])
+            rec["fail"] = {"kind": "entry differs", "direction": direction, "unit_in": j, "out_index": i,
+                           "impl_value": str(P[j, i]), "reference_value": str(Q[j, i])}
+            break
+    return rec
 
 
 def mdc_reference_cols(a):
@@ -114,6 +149,8 @@ def mdc_reference_cols(a):
     G = mdc_kernel(a)
     nt, nv, dt, dr = a["nt"], a["nv"], a["dt"], a["dr"]
     nf, ns, nr = G.shape
+    Gk = G.conj() if a.get("conj", False) else G
+    sc = 1.0 if a.get("prescaled", False) else dt * dr * np.sqrt(nt)
     cols = []
     for e in np.eye(nt * nr * nv):
         x = e.reshape(nt, nr, nv)
@@ -122,7 +159,7 @@ def mdc_reference_cols(a):
         X = np.fft.rfft(x, axis=0)
         Y = np.zeros((X.shape[0], ns, nv), dtype=complex)
         for f in range(min(nf, X.shape[0])):
-            Y[f] = dt * dr * np.sqrt(nt) * (G[f] @ X[f])
+            Y[f] = sc * (Gk[f] @ X[f])
         cols.append(np.fft.irfft(Y, n=nt, axis=0).ravel())
     return np.array(cols)
 
@@ -193,8 +230,8 @@ def run_seis(fam, a):
     return rec
 
 
-def run_mdc(a):
-    rec = {"fam": "mdc", "args": a}
+def run_mdc(a, fam="mdc"):
+    rec = {"fam": fam, "args": a}
     try:
         op = build_mdc(a)
         M, A = fwd_cols(op), adj_rows(op)
@@ -295,6 +332,31 @@ def gen_cases(tier):
         cases.append(("mdc", {"Gre": [[[c[0] for c in row] for row in sl] for sl in G], "Gim": [[[c[1] for c in row] for row in sl] for sl in G],
                               "nt": nt, "nv": nv, "dt": r.choice([1.0, 0.5, 0.25]), "dr": r.choice([1.0, 2.0, 0.5]), "twosided": two,
                               "saveGt": sg, "usematmul": um}))
+    # Fredholm1 and small MDC configurations evaluated by the Coq models (Ops/Fredholm.v, Ops/MDCOp.v)
+    r = common.rng(PID, "fred")
+    full = [(um, sg, nz) for um in (True, False) for sg in (True, False) for nz in (1, 2, 3)]
+    for (um, sg, nz) in (full if tier == "quick" else full * 4):
+        nsl, nx, ny = r.choice([2, 3]), r.choice([2, 3]), r.choice([2, 3])
+        G = [[[(r.randint(-3, 3), r.randint(-3, 3)) for _ in range(ny)] for _ in range(nx)] for _ in range(nsl)]
+        cases.append(("fred", {"Gre": [[[c[0] for c in row] for row in sl] for sl in G], "Gim": [[[c[1] for c in row] for row in sl] for sl in G],
+                               "nz": nz, "saveGt": sg, "usematmul": um}))
+    r = common.rng(PID, "mdcm")
+    full = [(two, um, sg, pre, cj) for two in (True, False) for um in (True, False) for sg in (True, False)
+            for pre in (False, True) for cj in (False, True)]
+    for idx, (two, um, sg, pre, cj) in enumerate(r.sample(full, 14) if tier == "quick" else full):
+        # nt = 4 is evaluated exactly (w = -i, 1/sqrt 4 = 1/2); odd / larger nt use 40-bit approximations of the
+        # root of unity, whose exact powers make the rational arithmetic expensive: kept few and small
+        big = (idx in (0, 1)) if tier == "quick" else (idx % 4 == 0)
+        nt = (5 if big else 3) if two else (5 if big else 4)
+        nfft = nt // 2 + 1
+        nf = r.choice([2, nfft])
+        ns, nr, nv = r.choice([2, 3]), r.choice([2, 3]), r.choice([1, 2])
+        if nt >= 5:
+            ns, nr, nv = 2, 2, 1
+        G = [[[(r.randint(-3, 3), r.randint(-3, 3)) for _ in range(nr)] for _ in range(ns)] for _ in range(nf)]
+        cases.append(("mdcm", {"Gre": [[[c[0] for c in row] for row in sl] for sl in G], "Gim": [[[c[1] for c in row] for row in sl] for sl in G],
+                               "nt": nt, "nv": nv, "dt": r.choice([1.0, 0.5]), "dr": r.choice([1.0, 2.0, 0.25]), "twosided": two,
+                               "saveGt": sg, "usematmul": um, "conj": cj, "prescaled": pre}))
     return cases
 
 
@@ -347,15 +409,40 @@ def emit(cid, rec):
         defs, flds = _mats(cid, rec, ["E", "L", "AE", "AL"], "s_")
         return "pre", defs, "{| s_id := %d%%nat; s_w := %s; s_nt0 := %d%%nat; s_cent := %s; s_G := [%s]; s_nth := %d%%nat; s_ns := %d%%nat; %s |}" % (
             cid, common.vlit(a["wav"]), n, b(a["kind"] == "centered"), ";\n ".join(common.mlit(g) for g in rec["G"]), nth, ns, flds)
+    if fam == "fred":
+        G = mdc_kernel(a)
+        nsl, nx, ny = G.shape
+        return "fred", "", ("{| f_id := %d%%nat; f_nsl := %d%%nat; f_nx := %d%%nat; f_ny := %d%%nat; f_nz := %d%%nat; f_um := %s; f_sg := %s; "
+                            "f_G := [%s]; f_M := %s; f_A := %s |}") % (
+            cid, nsl, nx, ny, a["nz"], b(a["usematmul"]), b(a["saveGt"]), ";\n ".join(common.mlit(sl, cplx=True) for sl in G),
+            common.mlit(rec["M"], cplx=True), common.mlit(rec["A"], cplx=True))
+    if fam == "mdcm":
+        import cmath
+        G = mdc_kernel(a)
+        nf, ns, nr = G.shape
+        nt = a["nt"]
+        gs = lambda z: "(gsc %s %s)" % tuple(("(%d)" % t if t < 0 else "%d" % t) for t in (int(round(z.real * SC)), int(round(z.imag * SC))))
+        w = cmath.exp(-2j * cmath.pi / nt)
+        if nt == 4:
+            w = -1j
+        scal = complex(a["dr"] * a["dt"] * np.sqrt(nt))
+        defs, flds = _mats(cid, {"M": rec["M"], "A": np.ascontiguousarray(rec["A"].T)}, ["M", "A"], "d_")
+        return "mdcm", defs, ("{| d_id := %d%%nat; d_N := %d%%nat; d_ns := %d%%nat; d_nr := %d%%nat; d_nv := %d%%nat; d_nf := %d%%nat; "
+                              "d_tw := %s; d_um := %s; d_sg := %s; d_pre := %s; d_cj := %s; d_w := %s; d_s2 := %s; d_sq := %s; d_scal := %s; "
+                              "d_G := [%s]; %s |}") % (
+            cid, nt, ns, nr, a["nv"], nf, b(a["twosided"]), b(a["usematmul"]), b(a["saveGt"]), b(a.get("prescaled", False)),
+            b(a.get("conj", False)), gs(w), gs(complex(2 ** 0.5)), gs(complex(nt ** -0.5)), common.glit(scal),
+            ";\n ".join(common.mlit(sl, cplx=True) for sl in G), flds)
     defs, flds = _mats(cid, rec, ["M", "A", "ref"], "m_")
     return "mdc", defs, "{| m_id := %d%%nat; %s |}" % (cid, flds)
 
 
 HEADER = ("From Coq Require Import QArith Qcanon ZArith List.\n"
-          "From PV Require Import Dict Vec Dot Mat QcInst Check Seismic CheckC20.\nImport ListNotations.\n"
+          "From PV Require Import Dict Vec Dot Mat QcInst Check Seismic CheckC20 CheckC20b.\nImport ListNotations.\n"
           "Definition tol : Qc := q 1 1000000000.\n")
 KINDS = (("post", "PostCase", "p_id", "check_post"), ("ns", "NsCase", "n_id", "check_ns"),
-         ("pre", "PreCase", "s_id", "check_pre"), ("mdc", "MdcCase", "m_id", "check_mdc"))
+         ("pre", "PreCase", "s_id", "check_pre"), ("mdc", "MdcCase", "m_id", "check_mdc"),
+         ("fred", "FrCase", "f_id", "check_fr"), ("mdcm", "MdcMCase", "d_id", "check_mdcm"))
 
 
 def write_shard(d, name, items):
@@ -417,7 +504,7 @@ def replay(rp):
         bad = max(zs[1e-3]["akirichards_err"], zs[1e-3]["fatti_err"]) > 1e-4
         print("reproduced" if bad else "not reproduced")
         return 1 if bad else 0
-    rec = run_mdc(a) if fam == "mdc" else run_seis(fam, a)
+    rec = run_mdc(a, fam) if fam in ("mdc", "mdcm") else run_fred(a) if fam == "fred" else run_seis(fam, a)
     nf = rec.get("fail")
     if fl["kind"] == "model correspondence":
         # no differing entry between the two constructions was found: re-run the model comparison in Coq
@@ -452,7 +539,7 @@ def main(tier):
     cases = gen_cases(tier)
     recs = []
     for fam, a in cases:
-        rec = run_mdc(a) if fam == "mdc" else run_seis(fam, a)
+        rec = run_mdc(a, fam) if fam in ("mdc", "mdcm") else run_fred(a) if fam == "fred" else run_seis(fam, a)
         if fam == "pre" and "fail" not in rec:
             rec["G"] = avo_tables(a)
         recs.append(rec)
@@ -469,10 +556,13 @@ def main(tier):
             if is_k1(fam, a) and "C20-K1" in known and rec["fail"]["kind"] in ("shape mismatch", "apply raised", "constructor raised"):
                 R.known_finding("C20-K1", PROPOSED_KNOWN[0]["what"])
                 nknown += 1
-            elif fam == "mdc" and is_k2(a) and "C20-K2" in known and rec["fail"]["kind"] == "raised":
+            elif fam in ("mdc", "mdcm", "fred") and is_k2(a) and "C20-K2" in known and rec["fail"]["kind"] == "raised":
                 R.known_finding("C20-K2", PROPOSED_KNOWN[1]["what"])
                 nknown += 1
-            elif fam == "mdc":
+            elif fam == "fred":
+                R.violation("Fredholm1 differs from the batched slice product d[k] = G[k] m[k] (usematmul=%s saveGt=%s nz=%d): %s"
+                            % (a["usematmul"], a["saveGt"], a["nz"], rec["fail"]), rp)
+            elif fam in ("mdc", "mdcm"):
                 R.violation("MDC differs from the frequency-by-frequency product dt*dr*sqrt(nt)*irfft(G rfft(x)): %s (nt=%d nv=%d twosided=%s usematmul=%s saveGt=%s)"
                             % (rec["fail"], a["nt"], a["nv"], a["twosided"], a["usematmul"], a["saveGt"]), rp)
             else:
@@ -480,8 +570,8 @@ def main(tier):
                             % (fam, rec["fail"], np.array(a["wav"]).shape, a["nt0"], a["kind"], a.get("spatdims"),
                                " lin=%s theta=%s" % (a["lin"], a["theta"]) if fam == "pre" else ""), rp)
         else:
-            F = rec["L"] if fam != "mdc" else rec["M"]
-            evals += 2 * F.shape[0] * (2 if fam != "mdc" else 1)
+            F = rec["L"] if fam in ("post", "nonstat", "pre") else rec["M"]
+            evals += 2 * F.shape[0] * (2 if fam in ("post", "nonstat", "pre") else 1)
             for j in range(F.shape[0]):
                 if np.abs(F[j]).max() > 0:
                     nontriv.add((cid, j))
@@ -495,6 +585,12 @@ def main(tier):
     crec["E"] = crec["E"].copy()
     crec["E"][1, 2] += 0.5                       # deliberately wrong explicit matrix: must come back failing
     items.append((canary_id,) + emit(canary_id, crec))
+    canary2 = canary_id + 1
+    frec = next((dict(rec) for cid, rec in good if rec["fam"] == "fred"), None)
+    if frec is not None:
+        frec["M"] = frec["M"].copy()
+        frec["M"][0, 0] += 1.0                   # deliberately wrong Fredholm1 matrix: must come back failing
+        items.append((canary2,) + emit(canary2, frec))
     cost = lambda it: len(it[2]) + len(it[3])
     items.sort(key=cost, reverse=True)
     nsh = min(len(items), 2 * common.NPROC if tier == "quick" else 3 * common.NPROC)
@@ -517,6 +613,10 @@ def main(tier):
     if canary_id not in codes or 1 not in codes[canary_id]:
         raise RuntimeError("canary not detected: the Coq comparison pipeline is broken")
     del codes[canary_id]
+    if frec is not None:
+        if canary2 not in codes or 1 not in codes[canary2]:
+            raise RuntimeError("Fredholm canary not detected: the Coq comparison pipeline is broken")
+        del codes[canary2]
     EXPL = {1: "explicit forward <> model", 2: "matrix-free forward <> model", 3: "explicit adjoint <> model^T",
             4: "matrix-free adjoint <> model^T", 5: "model explicit <> model chain (theorem instance)",
             6: "explicit <> matrix-free implementation", 7: "malformed"}
@@ -539,19 +639,24 @@ def main(tier):
     ngood = len(good)
     R.cov.update(
         obligations=len(thms) + len(recs) - nknown, known_finding_cases=nknown, discharged=len(thms) + ngood - len(codes),
-        checker_cmd="make -C coq; coqc Ops/Seismic.v Corr/CheckC20.v Props/C20.v (Print Assumptions); coqc .work/C20/c20_*.v "
-                    "(vm_compute: Seismic models over Qc vs dense matrices of both implementation constructions, tol 1e-9)",
+        checker_cmd="make -C coq; coqc Ops/Seismic.v Ops/Fredholm.v Ops/MDCOp.v Corr/CheckC20.v Corr/CheckC20b.v Props/C20.v (Print Assumptions); "
+                    "coqc .work/C20/c20_*.v (vm_compute: Seismic models over Qc vs dense matrices of both implementation constructions; "
+                    "Fredholm1 / MDC models over Gaussian rationals vs implementation matrices, tol 1e-9)",
         theorems=thms, axioms_reported=axioms, evaluations=evals, distinct_nontrivial=len(nontriv),
         rule="post-stack: every (nh 3..8, nt0 5..9, kind) with spatdims None + sampled (2,)/(2,2); non-stationary nt0 x nh banks; "
              "pre-stack: theta sets 1..4, vsvp scalar/profile, akirich/fatti/ps, spatdims None/(2,), documented rearrangement applied; "
-             "MDC: one-/two-sided, nv 1..3, usematmul/saveGt, vs numpy rfft reference; integer / dyadic taps; forward AND adjoint dense "
+             "MDC: one-/two-sided, nv 1..3, usematmul/saveGt, vs numpy rfft reference; Fredholm1 (usematmul x saveGt x nz 1..3, Gaussian-integer "
+             "kernels) and small MDC (nt 3/4/5, conj/prescaled flags; nt=4 exact, else 40-bit root of unity) ALSO vs the Coq models; "
+             "integer / dyadic taps; forward AND adjoint dense "
              "matrices by unit vectors; non-trivial = distinct (case, unit vector) with non-zero image",
         distribution=dist, configurations=len(recs), compared_in_coq=ngood, canary="detected",
-        not_claimed="Zoeppritz-limit clause (numerical sanity only); MDC has no Coq model (numpy FFT reference)",
+        not_claimed="Zoeppritz-limit clause (numerical sanity only); MDC model executed with approximate root of unity / 1/sqrt(nt) "
+                    "for nt <> 4 (theorem hypotheses hold only to ~1e-12 there); larger MDC sizes vs numpy FFT reference only",
         modelled=["convmtx", "dense D (poststack/prestack)", "Convolve1D short/long dispatch (forward index formula)",
                   "FirstDerivative centered3/forward edge=False", "block_diag/hstack/vstack assembly of prestack", "AVOLinearModelling forward",
-                  "nonstationary_convmtx (entry formula)", "MatrixMult otherdims / axis-0 N-d application"],
-        l1_only=["MDC/Fredholm1/FFT (numpy reference)", "akirichards/fatti/ps coefficient formulas (data)"],
+                  "nonstationary_convmtx (entry formula)", "MatrixMult otherdims / axis-0 N-d application",
+                  "Fredholm1 (matmul / loop, saveGt True/False)", "MDC = F1^H I1^H Fredholm1 I F over the real-FFT engine model (twosided, conj, prescaled)"],
+        l1_only=["numpy/scipy FFT kernels (oracle)", "akirichards/fatti/ps coefficient formulas (data)"],
         proposed_known=[k["id"] for k in PROPOSED_KNOWN], t_python=round(t_py, 1), t_coq=round(t_coq, 1))
     for rec in recs[:: max(1, len(recs) // 6)]:
         a = rec["args"]
